@@ -115,7 +115,7 @@ func undecodedEnvelope(v any, depth int) string {
 	if depth > 6 {
 		return ""
 	}
-	if s, ok := stackage.ConvertStack(v); ok && s.IsInit() {
+	if s, ok := refAsStack(v); ok && s.IsInit() {
 		for _, e := range contents(s) {
 			if sl, isSl := e.([]any); isSl && len(sl) > 0 {
 				if lab, isStr := sl[0].(string); isStr {
@@ -129,7 +129,7 @@ func undecodedEnvelope(v any, depth int) string {
 			}
 		}
 	}
-	if cd, ok := stackage.ConvertCondition(v); ok && cd.IsInit() {
+	if cd, ok := refAsCond(v); ok && cd.IsInit() {
 		return undecodedEnvelope(cd.Expression(), depth+1)
 	}
 	return ""
